@@ -64,7 +64,7 @@ Definition bool_tok (b : bool) : list tok := ident (if b then "true" else "false
 Definition pp_actual (a : actual) : list tok :=
   match a with
   | ADebug e => tpl SCall "format ! ( ""{:?}"" , $0 )" [pp_vexpr e]
-  | ADebugRef e => tpl SCall "format ! ( ""{:?}"" , & $0 )" [pp_vexpr e]
+  | ADebugRef e => tpl SCall "format ! ( ""{:?}"" , & ( $0 ) )" [pp_vexpr e]
   | ADebugActual => tpl SCall "format ! ( ""{:?}"" , __assert_struct_actual )" []
   | AMapLen e => tpl SCall "format ! ( $0 , ( $1 ) . len ( ) )" [str_lit "map with {} entries" SCall; pp_vexpr e]
   | AMissingKey => tpl SCall "$0 . to_string ( )" [str_lit "missing key" SCall]
@@ -107,7 +107,7 @@ Fixpoint pp_stmt (s : stmt) : list tok :=
   | SSimple sp e pt p =>
       tpl sp "if ! matches ! ( $0 , $1 ) { $2 }" [pp_vexpr e; pt; pp_push p]
   | SString sp e lit lsp p =>
-      tpl sp "{ let __assert_struct_tmp = & $0 ; let __assert_struct_actual = ( * __assert_struct_tmp ) . as_ref ( ) ; if ! matches ! ( __assert_struct_actual , $1 ) { $2 } }"
+      tpl sp "{ let __assert_struct_tmp = & ( $0 ) ; let __assert_struct_actual = ( * __assert_struct_tmp ) . as_ref ( ) ; if ! matches ! ( __assert_struct_actual , $1 ) { $2 } }"
           [pp_vexpr e; [TLit lit lsp]; pp_push p]
   | SCmp sp op e x p =>
       tpl sp ("# [ allow ( clippy :: nonminimal_bool ) ] if ! ( ( $0 ) . " ++ cmp_method op ++ " ( & ( $1 ) ) ) { $2 }")
